@@ -42,15 +42,21 @@ def gen_scenario(rng, nops):
         equivs.append('(e %s %d %s %d %s %s)' % (p1, k1, p2, k2, E.H(rng.choice(IDPOOL)), E.H(conn[key])))
     # connections made of several variable pairs between the same two components
     comps = sorted({p for p, _ in vs})
-    if len(comps) >= 2 and rng.random() < 0.6:
+    nshared = 0
+    if len(comps) >= 2 and rng.random() < 0.8:
         pa, pb = rng.sample(comps, 2)
         va = [v for v in vs if v[0] == pa and v not in used]; vb = [v for v in vs if v[0] == pb and v not in used]
         key = tuple(sorted([pa, pb]))
+        shared = rng.choice(["id1", "x", "b4da56"]) if rng.random() < 0.6 else None     # the mappings of the connection share one identifier
         for x, y in list(zip(va, vb))[:3]:
             if key not in conn: conn[key] = rng.choice(IDPOOL)
             used.add(x); used.add(y)
-            equivs.append('(e %s %d %s %d %s %s)' % (x[0], x[1], y[0], y[1], E.H(rng.choice(IDPOOL)), E.H(conn[key])))
+            equivs.append('(e %s %d %s %d %s %s)' % (x[0], x[1], y[0], y[1], E.H(shared if shared else rng.choice(IDPOOL)), E.H(conn[key])))
+            nshared = nshared + 1 if shared else 0
     ops = ['(setmodel)'] if rng.random() < 0.9 else []
+    if nshared >= 2:
+        # "fix the duplicate": re-identify one of the mappings that share an identifier (not only the first), then look around
+        ops += ['(setmodel)', '(%s 5 %d)' % (rng.choice(['assignidk', 'assignid2k']), rng.randrange(0, 4)), '(ids)', '(dups)']
     for _ in range(nops):
         r = rng.random()
         if r < 0.22: ops.append('(edit %d %s)' % (rng.randrange(0, 40), E.H(rng.choice(IDPOOL + ['b4da59', 'zz']))))
@@ -81,6 +87,15 @@ def gen_scenario(rng, nops):
         out.append(o)
         if (o.startswith('(assignall') or o.startswith('(assignids')) and rng.random() < 0.6:
             out += ['(item %s)' % E.H('%06x' % (0xb4da55 + k)) for k in range(rng.choice([6, 12, 20]))]
+    ops = out
+    # after an item has been re-identified, look up every identifier that items may share: each must come back as an item
+    # that carries it (a mapping re-identified inside a connection whose mappings share an identifier must not take the
+    # list entry of its sibling with it)
+    out = []
+    for o in ops:
+        out.append(o)
+        if o.startswith('(assignidk') or o.startswith('(assignid2k') or o.startswith('(assignid '):
+            out += ['(item %s)' % E.H(i) for i in ('id1', 'id2', 'x', 'b4da55', 'b4da56')] + ['(count %s)' % E.H(rng.choice(['id1', 'id2', 'x']))]
     ops = out
     if rng.random() < 0.5:
         ops.insert(rng.randrange(len(ops) + 1), '(printauto)')
